@@ -102,22 +102,16 @@ impl Metadata {
     }
 
     pub fn modified(&self) -> io::Result<SystemTime> {
-        Ok(SystemTime::UNIX_EPOCH
-            + Duration::from_secs(self.0.stat.st_mtime as _)
-            + Duration::from_nanos(self.0.stat.st_mtime_nsec as _))
+        Ok(system_time(self.0.stat.st_mtime as _, self.0.stat.st_mtime_nsec as _))
     }
 
     pub fn accessed(&self) -> io::Result<SystemTime> {
-        Ok(SystemTime::UNIX_EPOCH
-            + Duration::from_secs(self.0.stat.st_atime as _)
-            + Duration::from_nanos(self.0.stat.st_atime_nsec as _))
+        Ok(system_time(self.0.stat.st_atime as _, self.0.stat.st_atime_nsec as _))
     }
 
     pub fn created(&self) -> io::Result<SystemTime> {
         match self.0.created {
-            Some((secs, nsecs)) => Ok(SystemTime::UNIX_EPOCH
-                + Duration::from_secs(secs as _)
-                + Duration::from_nanos(nsecs as _)),
+            Some((secs, nsecs)) => Ok(system_time(secs as _, nsecs as _)),
             None => Err(io::Error::new(
                 io::ErrorKind::Unsupported,
                 "creation time is not available for the filesystem",
@@ -231,4 +225,14 @@ impl FileTypeExt for FileType {
     fn is_socket(&self) -> bool {
         self.0.is_socket()
     }
+}
+
+/// Seconds (possibly negative: before 1970) and nanoseconds since the epoch.
+fn system_time(secs: i64, nsecs: u64) -> SystemTime {
+    let t = if secs >= 0 {
+        SystemTime::UNIX_EPOCH + Duration::from_secs(secs as u64)
+    } else {
+        SystemTime::UNIX_EPOCH - Duration::from_secs(secs.unsigned_abs())
+    };
+    t + Duration::from_nanos(nsecs)
 }
